@@ -117,6 +117,9 @@ def run(ctx):
     c09.merge_targets(c01.ctx_alias(ctx, "R03.4"), merges, rule="R09.1")
     c02.export_triple(c01.ctx_alias(ctx, "R03.5"))
     c06.run_r061_only(c01.ctx_alias(ctx, "R03.6")) if hasattr(c06, "run_r061_only") else None
+    # an argument that is reported as passed but has no edge becomes an extra implicit import (C06 R06.8)
+    import engine
+    c06.check_argument_scan(engine.AliasCtx(ctx, {"R06.8": "R03.6"}), [f for f in db.fns.values() if f.crate == "wac_graph"])
 
 
 def cfg_in_loop(f, t):
